@@ -76,6 +76,13 @@ Print Assumptions C08_reference_order.
 
 (* ================= the full statement is refuted on this tree ================= *)
 
+(* Spec.C08_full_statement = == is an equivalence /\ cmp is a total order consistent with == and with partial_cmp /\
+   equal values hash equally /\ clones and owned copies are == and keep the signature /\ well-formed values are typed by their
+   signature /\ conversions round-trip *)
+Theorem C08_full_statement_refuted : ~ C08_full_statement.
+Proof. exact full_statement_refuted. Qed.
+Print Assumptions C08_full_statement_refuted.
+
 Theorem C08_eq_refl_refuted : exists v : value, veq v v = false.
 Proof. exact eq_refl_refuted. Qed.
 Print Assumptions C08_eq_refl_refuted.
